@@ -280,7 +280,7 @@ def playback(ws, scratch, crate, h, log=None):
         res["output"] = "playback generation timed out"
         return res
     out = p.stdout
-    names = re.findall(r"^\s+- (kani_concrete_playback_\w+)\.", out, re.M)
+    names = re.findall(r"^\s+- (kani_concrete_playback_\w+)", out, re.M)
     res["test_names"] = names
     # extract the generated tests from the modified source
     woven = open(os.path.join(ws, h.weave_into)).read()
